@@ -16,6 +16,7 @@ import NadaVerif.Lemmas.CompileClosed
 import NadaVerif.Lemmas.TraceInv
 import NadaVerif.Lemmas.FnExact
 import NadaVerif.Lemmas.AccExact
+import NadaVerif.Lemmas.NoMissing
 
 namespace NadaVerif.C01
 open NadaVerif NadaVerif.Spec NadaVerif.Lemmas NadaVerif.Generated
@@ -112,11 +113,49 @@ theorem history_compile_acyclic (cs more : List Cmd) (outs : List OutDecl) (m : 
   have h1 := runCmds_ok more _ h0
   exact compile_acyclic _ outs m ((storeWF_iff _).2 h1.1) h
 
+/-- an output list as the compiler entry point builds it: each output names the operation of a value some
+register holds (`output.child.child.id`) -/
+def OutsFromRegs (regs : List RVal) (outs : List OutDecl) : Prop :=
+  ∀ o ∈ outs, ∃ v, RVal.val v ∈ regs ∧ v.child = some o.root
+
+theorem outs_stored {m : Mach} (h : MachSto m) {outs : List OutDecl} (ho : OutsFromRegs m.regs outs) :
+    ∀ o ∈ outs, Stored m.st o.root := by
+  intro o hm
+  obtain ⟨v, hv, hc⟩ := ho o hm
+  exact (stored_iff_has _ _).2 (h.2.1 _ hv o.root (by simpa [RVal.sids] using child_mem_ids hc))
+
+/-- **Nothing a traced program needs is missing**: trace any command list (accepted and rejected commands,
+aborted function bodies), take as outputs any values the registers hold — none of the lookups of the
+compilation (operands during the traversals, applied functions, parameters and return operations of emitted
+functions, output roots) can miss; every id that is mentioned resolves in the store. -/
+theorem trace_compile_no_missing (cs : List Cmd) (outs : List OutDecl)
+    (ho : OutsFromRegs (runCmds {} cs).1.regs outs) : compile (runCmds {} cs).1.st outs ≠ .error .key := by
+  have h := trace_stored cs
+  exact compile_nk _ (closed_of_stoL _ h.1) outs (outs_stored h ho)
+
+/-- … the same at any later point of a history that continues the trace (C08: nothing the later program needs
+is missing, whatever was traced, compiled or failed before). -/
+theorem history_compile_no_missing (cs more : List Cmd) (outs : List OutDecl)
+    (ho : OutsFromRegs (runCmds (runCmds {} cs).1 more).1.regs outs) :
+    compile (runCmds (runCmds {} cs).1 more).1.st outs ≠ .error .key := by
+  have h := runCmds_sto more _ (trace_stored cs)
+  exact compile_nk _ (closed_of_stoL _ h.1) outs (outs_stored h ho)
+
+/-- every record of the traced store mentions only stored ids — operands, applied functions, a function's return
+operation and its parameters -/
+theorem trace_store_closed (cs : List Cmd) (k : Id) (op : AstOp) (h : (runCmds {} cs).1.st.lookup k = some op) :
+    ∀ c ∈ op.mentions, ∃ o, (runCmds {} cs).1.st.lookup c = some o :=
+  closed_of_stoL _ (trace_stored cs).1 k op h
+
 /-! Non-vacuity: a concrete store and compilation satisfying the hypotheses. -/
 def exSt : St := St.mk 3
   [(3, .binary "Addition" 1 2 (.scalar "SecretInteger")),
    (2, .input "b" "P" "" (.scalar "SecretInteger")), (1, .input "a" "P" "" (.scalar "SecretInteger"))] []
 example : storeWF exSt = true ∧
     (compile exSt [OutDecl.mk 3 "o" "P"]).toOption.isSome = true := by decide
+/-- a traced program (two inputs, a sum, the sum as output) meeting `OutsFromRegs` -/
+def exCmds : List Cmd := [.party "P", .inputObj "a" "" 0, .wrap ⟨.sec, .int⟩ 1, .inputObj "b" "" 0, .wrap ⟨.sec, .int⟩ 3, .bin .add 2 4]
+example : (runCmds {} exCmds).1.regs[5]? = some (.val (.scalar ⟨.sec, .int⟩ (some 3) none)) ∧
+    (compile (runCmds {} exCmds).1.st [OutDecl.mk 3 "o" "P"]).toOption.isSome = true := by decide
 
 end NadaVerif.C01
